@@ -124,11 +124,15 @@ def shift_pairs(ctx: core.Ctx, n: int, nx_max: int) -> list[dict]:
 def keep_c17(f: dict) -> bool:
     last = f["history"][-1]
     exp = f.get("expected", {})
-    if exp.get("kind") in ("RuntimeError", "ValueError"):
+    if exp.get("kind") in ("RuntimeError", "ValueError", "AnyError"):
         return True
-    if f["clause"] == "Outcome" and last.get("op") == "simulate" and last.get("sched") in ("S", "K"):
+    if f["clause"] == "Outcome" and last.get("op") == "simulate" and last.get("sched") in ("S", "K", "KA"):
         return True
-    return last.get("op") == "simulate" and last.get("sched") == "K"
+    if last.get("op") == "setpf":
+        return True
+    # the scalar setting against constant schedules: runs with K / KA, and runs without a schedule once the attribute was reassigned
+    return last.get("op") == "simulate" and (last.get("sched") in ("K", "KA")
+                                              or (last.get("sched") == "none" and any(c.get("op") == "setpf" for c in f["history"])))
 
 
 def run(ctx: core.Ctx) -> None:
@@ -149,8 +153,19 @@ def run(ctx: core.Ctx) -> None:
     ctx.model_check("Scheme", "MC_Scheme_relax_single.cfg", workers=4)
     variants = [0, 2, 3] if ctx.quick else [0, 1, 2, 3, 6]   # 2, 6: float32 time grids; 3: int64
     depth = 3 if ctx.quick else 4
-    behs = c10.export_behaviours(ctx, "single", depth)
-    c10.replay_histories(ctx, "single", behs, variants, clauses=None, keep=keep_c17)
+    # single phase with the caller also assigning another scalar to `pressure_fracface` between calls ("pf=alt") and the
+    # schedule that is constant at that other value ("KA"): the scalar setting is the attribute's value at the time of the call
+    ctx.model_check("Reservoir", "MC_Reservoir_single_set.cfg", workers=16)
+    ctx.model_check("Reservoir", "MC_Reservoir_unbounded_single_set.cfg", workers=2)
+    behs = c10.export_behaviours(ctx, "single", depth if ctx.quick else 3, setters=True)
+    c10.replay_histories(ctx, "single", behs, variants, clauses=None, keep=keep_c17, setters=True)
+    if not ctx.quick:
+        behs = c10.export_behaviours(ctx, "single", depth)
+        c10.replay_histories(ctx, "single", behs, variants, clauses=None, keep=keep_c17)
+        behs = c10.export_sampled(ctx, "single", 6, 1500, setters=True)
+        c10.replay_histories(ctx, "single", behs, [0, 3], clauses=None, keep=keep_c17, setters=True)
+    c10.trace_validation(ctx, n_inst=3 if ctx.quick else 10, nobj=4 if ctx.quick else 12, length=30, clauses={"Outcome", "StaleField", "StaleTime", "StaleReturn"},
+                         setters=True, kinds=("single",))
     behs = c10.export_behaviours(ctx, "ideal", depth)
     c10.replay_histories(ctx, "ideal", behs, variants, clauses={"Outcome"}, keep=keep_c17)
     raws = shift_pairs(ctx, 60 if ctx.quick else 800, 80 if ctx.quick else 400)
